@@ -125,42 +125,67 @@ def run(prog, rep, tier):
 
 
 def driver_tests_zero(prog, r):
-    """Does the driver test `secs` before arming the sleep?  {output variant: bool}"""
+    """Does the driver test the seconds carried by Output::Set*Timer before arming the sleep?  {output variant: bool}
+    The seconds are recognised as the payload of the variant (however the binding is called), the test as a comparison of
+    that payload with 0 or a `match` on it whose arm for 0 does not build the duration."""
     res = {"SetHoldTimer": True, "SetKeepaliveTimer": True}
     n = 0
+
+    def payload_variant(e):
+        for x in walk(e):
+            if isinstance(x, tuple) and x and x[0] == "downcast" and x[2] in res:
+                return x[2]
+        return None
     for k in crate_fns(prog, "rustybgpd"):
         ix = prog.ix[k]
-        if not any(c["f"].get("name", "").endswith("tokio::time::sleep") for c in ix["calls"]):
+        if "::tests::" in ix["name"] or not any(c["f"].get("name", "").endswith("Duration::from_secs") for c in ix["calls"]):
             continue
         fv = view(prog, k)
-        brs = branches(fv)
-        # the duration handed to sleep() under an Output::Set*Timer(secs) arm is built by Duration::from_secs(secs):
-        # "tested" means that construction happens only when secs != 0 (any other duration is the disarmed one)
+        rend = Renderer(fv, depth=14, through_names=True)
+        brs = branches(fv, rend)
         for bi, t in fv.calls(re.compile(r"(std|core)::time::Duration::from_secs")):
-            e = Renderer(fv, depth=10).operand(t["args"][0], 10)
-            if "secs" not in expr_vars(e):
-                continue
-            which = None
-            gs = flat_guards(fv, bi, brs)
-            for g, labels, how in gs:
-                if g[0] == "discr" and g[2] and g[2].endswith("fsm::Output"):
-                    for l in labels:
-                        if l in res:
-                            which = l
+            e = rend.operand(t["args"][0], 14)
+            which = payload_variant(e)
             if which is None:
                 continue
             n += 1
             r.analysed(root_name(prog, k))
             tested = False
-            for g, labels, how in gs:
-                if g[0] == "bin" and g[1] in ("Ne", "Eq", "Gt") and "secs" in expr_vars(g) and any(x[0] == "const" and x[1] == 0 for x in (g[2], g[3])):
+            for g, labels, how in flat_guards(fv, bi, brs):
+                if payload_variant(g) != which:
+                    continue
+                if g[0] == "bin" and g[1] in ("Ne", "Eq", "Gt") and any(isinstance(x, tuple) and x[0] == "const" and x[1] == 0 for x in (g[2], g[3])):
                     if (g[1] in ("Ne", "Gt") and labels == {"true"}) or (g[1] == "Eq" and labels == {"false"}):
                         tested = True
+                elif g[0] in ("field", "deref", "ref") and "0" not in {str(l) for l in labels}:
+                    tested = True          # `match secs { 0 => .., n => from_secs(n) }`
             if not tested:
                 res[which] = False
     if n < 2:
-        r.unanalysable("driver arms for Set*Timer: found %d Duration::from_secs(secs) sites under an Output match (want >= 2)" % n)
+        r.unanalysable("driver arms for Set*Timer: found %d Duration::from_secs(<payload of Output::Set*Timer>) sites (want >= 2)" % n)
     return res
+
+
+def _chain_output_variants(prog, ck):
+    """fsm::Output variants whose payload is taken apart by the closures that feed the iterator chain `ck` is the consumer of
+    (siblings created in the same parent body)."""
+    par = prog.ix[ck].get("parent")
+    if not par or par not in prog.ix:
+        return set()
+    outs = set()
+    for sib in prog.ix[par].get("closures", []):
+        if sib == ck or sib not in prog.ix:
+            continue
+        sv = view(prog, sib)
+        somes = sv.aggregates(None, "Some")
+        for bb, br in branches(sv).items():
+            if br.expr[0] == "discr" and br.adt and br.adt.endswith("fsm::Output"):
+                for v, tgt in br.cases:
+                    lab = br.label(prog, v)
+                    # the variant counts if a Some(..) is built under it (filter_map keeps it)
+                    if any(sv.edge_guarded(sb, {(bb, v, tgt)}) or sb == tgt for sb, si, s in somes):
+                        outs.add(lab)
+    return outs
 
 
 def check_timer_replacement(prog, r):
@@ -197,15 +222,21 @@ def check_timer_replacement(prog, r):
         fv = view(prog, k)
         brs_ = None
         sites = []
+        from ..util import captured_field_writes
         for fld in want_out:
             sites += [(b, fld) for b, si, s_ in field_writes(fv, fld)]
             sites += [(b, fld) for b, t in fv.calls() if t.get("dest") and last_field(t["dest"]) == fld]
+            sites += [(b, fld) for b, si, s_ in captured_field_writes(fv, fld)]
         for b, fld in sites:
             brs_ = brs_ or branches(fv)
             outs = set()
             for g, l, h in flat_guards(fv, b, brs_):
                 if g[0] == "discr" and g[2] and g[2].endswith("fsm::Output"):
                     outs |= set(l)
+            if not outs and fv.f.get("kind") == "closure":
+                # `outputs.into_iter().filter_map(|o| match o { Set*Timer(s) => Some(..), _ => None }).for_each(|d| self.f = ..)`:
+                # the FSM output is matched in a sibling closure of the same iterator chain
+                outs = _chain_output_variants(prog, k)
             n_assign += 1
             if outs == {want_out[fld]}:
                 r.ok("%s: %s assigned while handling %s" % (short(root_name(prog, k)), fld, want_out[fld]))
